@@ -82,7 +82,7 @@ def run(repo: Repo, rep: Report, tier: str) -> None:
             exprs = dua.expand(v)
             ok = any(isinstance(e, ast.Subscript) and norm(e.value) == "self._available_signal_pool" for e in exprs)
             detail = f"{norm(v)} <- {[norm(e) for e in exprs][:2]}"
-        rep.check(ok, "C13-R1", f"allocator returns a pool member or signal-0: `return {norm(v)}`", detail, alloc.loc(r))
+        rep.check(ok, "C13-R1", f"allocator returns a pool member or signal-0: `return {__import__('fv.rules.util', fromlist=['ckey']).ckey(alloc, v)}`", detail, alloc.loc(r))
 
     # ---------------- R2 ---------------------------------------------------------------
     rep.rule("C13-R2", "at least one contribution of kind *signal name* (SignalLiteral.signal_type, projection target, MemDecl.signal_type, bundle "
